@@ -760,6 +760,16 @@ def assembly_tie(c):
     differ = []
     for op, a, b in zip(ops, impl, model):
         c.evaluations += 1
+        if a.startswith(("unrecognised ", "panic ")):
+            # the real generator emitted something the reader does not know (or emitted a pattern / format other than the designed one)
+            try:
+                msg = bytes.fromhex(a.split(" ", 1)[1]).decode(errors="replace")
+            except Exception:
+                msg = a
+            first = msg.splitlines()[0] if msg else a
+            c.fail("assembly/emitted-code:" + re.sub(r"[0-9]+", "N", first)[:70], "codegen.ValidationCode emitted code the reader rejects: " + first[:300],
+                   input={"kind": "assembly", "line": op}, expected="statements of the known shapes carrying the designed pattern / format", actual=msg[:1500])
+            continue
         if op.startswith("hasval "):
             c.hist("assembly-hasValidations", b)
             if a != b:
